@@ -173,6 +173,8 @@ def gen_nexus_doc(rng):
             doc += "    %s %s\n" % (esc(l), "".join(rng.choice("ACGT-?") for _ in range(nch)))
         doc += "  ;\nEND;\n"
         feats["chars"] = True
+        if feats.get("no_dimensions"):
+            feats["chars_without_ntax"] = True      # the MATRIX command needs NTAX: not a valid document for DataSet.get
         if ntaxa_blocks == 2:
             feats["missing_link"] = True
         if rng.random() < 0.4:
@@ -619,7 +621,7 @@ def is_err(x):
 
 UNATTACHED_ERRORS = ("TooManyTaxaError", "UndefinedBlockError", "MultipleBlockWithSameTitleError", "LinkRequiredError")
 INVALID_FEATURES = ("ntax_short", "bad_header", "ends_after_eq", "no_end", "late_statement",
-                    "missing_semicolon", "missing_link", "translate_trailing_comma", "fixed")
+                    "missing_semicolon", "missing_link", "translate_trailing_comma", "chars_without_ntax", "fixed")
 
 
 import re
